@@ -3,7 +3,7 @@
 import json, os, sys
 ROOT = os.path.dirname(os.path.dirname(os.path.abspath(__file__)))
 sys.path.insert(0, os.path.join(ROOT, "tools"))
-from props import PROPS, MANIFEST_TEXT, NOT_APPLICABLE  # noqa
+from props import PROPS, MANIFEST_TEXT, NOT_APPLICABLE, COMMON_NOTE, TECH  # noqa
 ids = [json.loads(l)["id"] for l in open(os.path.join(ROOT, "properties.jsonl"))]
 hooks = [l.strip() for l in os.popen("git -C /repo log --format=%H --grep='^verif hooks' ").read().split()]
 man = {
@@ -28,7 +28,7 @@ man = {
 }
 for pid in ids:
     if pid in PROPS:
-        t = MANIFEST_TEXT[pid]
+        t = MANIFEST_TEXT.get(pid) or {"level": "Recorded library calls of this property's operations are validated by TLC against the TLA+ trace specification (NumTrace/NumApi); the value algebra they rest on is model-checked against TLC integers.", "note": COMMON_NOTE, "technique": TECH}
         man["checks"].append({
             "property_id": pid,
             "quick_cmd": "./check %s --tier quick" % pid,
